@@ -221,3 +221,11 @@ Example C14_ex_web :
   exists g, web_tiles (20037508#1) 3 256 = Ok g /\ pt2idx g 0 0 = (4, 3)%Z /\
             pt2idx g (-(20037508#1)) (20037507#1) = (0, 0)%Z.
 Proof. eexists. split; [reflexivity|]. vm_compute. split; reflexivity. Qed.
+
+(** Tie to the source: Bin1D.__getitem__ / Bin1D.bin as regenerated by tools/py2v from the
+    current odc/geo/math.py (coq/Gen/MathGen.v, rewritten on every run) are the Bin1D of
+    the model (Model/GridSpec.v) the theorems above are stated on. *)
+From OG Require Proofs.MathGenEquivG.
+Theorem C14_source_is_model : OG.Proofs.MathGenEquivG.gridspec_source_is_model.
+Proof. exact OG.Proofs.MathGenEquivG.gridspec_source_is_model_holds. Qed.
+Print Assumptions C14_source_is_model.
